@@ -496,6 +496,7 @@ func c02GenScenario(r *core.Run) *c02Scenario {
 }
 
 func runC02(r *core.Run) {
+	resetLibrary()
 	var sc *c02Scenario
 	if r.Scenario != nil {
 		sc = &c02Scenario{}
